@@ -1,4 +1,5 @@
 import PsycheModel.Tree
+import PsycheModel.Generated.NodeClasses
 /-!
 # C14 — Node extents nest and traversal reaches every node exactly once
 
@@ -198,3 +199,25 @@ example : Ordered sample ∧ first sample = some 1 ∧ last sample = some 7 ∧
     (accept sample).2 = [0, 1, 2, 3, 4, 5] := by decide
 
 end PsycheModel.Tree
+
+/-! ## Generated obligations on the node classes (regenerated from `SyntaxNodes*.h`, `SyntaxVisitor.h`, `SyntaxNode.h`) -/
+namespace PsycheModel.Generated.NodeClasses
+open PsycheModel.Generated
+
+set_option maxRecDepth 40000
+
+/-- a class that stands for one syntax kind is named like that kind -/
+theorem one_kind_classes_name_their_kind : classes.all (fun c => c.2.2 != 1 || (Kind.ofName? c.1).isSome) = true := by decide
+
+/-- class names are pairwise distinct, and every base class is `SyntaxNode` or declared earlier (the hierarchy is a forest) -/
+def basesEarlier : List (String × String × Nat) → List String → Bool
+  | [], _ => true
+  | c :: rest, seen => (c.2.1 == "SyntaxNode" || seen.contains c.2.1) && !seen.contains c.1 && basesEarlier rest (c.1 :: seen)
+theorem hierarchy_is_a_forest : basesEarlier classes [] = true := by decide
+
+/-- the visitor has a `visitX` for exactly the classes that stand for syntax kinds, and `SyntaxNode` a down-cast `asX` for every class -/
+theorem visits_are_the_concrete_classes :
+    (classes.all (fun c => (c.2.2 != 0) == visited.contains c.1) && visited.all (fun v => classes.any (fun c => c.1 == v))) = true := by decide
+theorem every_class_has_a_downcast : classes.all (fun c => downcasts.contains c.1) = true ∧ downcasts.all (fun d => classes.any (fun c => c.1 == d)) = true := by decide
+
+end PsycheModel.Generated.NodeClasses
